@@ -36,7 +36,8 @@ def offerOk (_s : St) (_c : Nat) (full : Bool) (impl : String) : Bool :=
   else true
 
 /-- a user connection: bridged to a work connection that was pooled (never one already in use or
-    closed), announced correctly; or waiting; or closed — never stuck -/
+    closed), announced correctly; or waiting; or closed by frps (`C:<n>`: promptly, after its handler
+    consumed n pooled connections that turned out dead) — never stuck, never left open on a dead one -/
 def userOk (s : St) (_u : Nat) (impl : String) : Bool :=
   if impl.startsWith "B:" then
     match impl.splitOn ":" with
@@ -46,7 +47,7 @@ def userOk (s : St) (_u : Nat) (impl : String) : Bool :=
        | some c => s.w.get c == some .pooled
        | none => false)
     | _ => false
-  else impl == "W" || impl == "C" || impl == "refused"
+  else impl == "W" || impl.startsWith "C:" || impl == "refused"
 
 /-- after a session end: no held work connection and no waiting user is still open -/
 def censusOk (impl : String) : Bool :=
@@ -70,6 +71,21 @@ def closeListenerOk (impl : String) : Bool :=
   match impl.splitOn ";limbo=" with
   | [_, l] => l == ""
   | _ => false
+
+/-- a census after an accept loop has ended / been released: no connection is still open without an owner -/
+def openNoneOk (impl : String) : Bool :=
+  match impl.splitOn "open=" with
+  | [_, l] => l == ""
+  | _ => true      -- not a census (the op did not apply): nothing to judge
+
+/-- one Accept of an InternalListener's loop: a connection, or the end of the loop with nothing left
+    queued; never blocked while something is queued or the listener is closed -/
+def vlAcceptOk (impl : String) : Bool :=
+  if impl.startsWith "exit:" then impl == "exit:" else impl != "block"
+
+/-- a visitor connection that NewConn accepted while the accept loop was free: bridged under the right
+    proxy name, or closed -/
+def visitorOk (impl : String) : Bool := impl != "stuck" && impl != "nostall" && impl != "B:N"
 
 /-- frps survived the inner ops -/
 def childOk (impl : String) : Bool := !(impl.endsWith "crash") && !(impl.endsWith "hang")
@@ -295,6 +311,84 @@ theorem handler_never_stuck (fx : Fix) (s : St) (u : Nat) (x : U) (hp : s.panick
         refine Or.inr (Or.inr (Or.inr ⟨.request u true, Or.inr (Or.inl rfl), ?_⟩))
         simp [step, hp, hx, hpool, hc]
 
+/-! ## 2b. a pooled connection that turned out dead -/
+
+/-- A handler that received a pooled connection whose peer has gone.  BOTH outcomes of the StartWorkConn
+    write are enabled (the write into a half-closed yamux stream, or into a session whose death has not
+    been noticed yet, still succeeds), and neither leaves the user connection open on the dead one:
+    a failed write closes the work connection and the handler goes to the next round or closes the user;
+    a "successful" write bridges, the end of Join is enabled at once and closes both ends. -/
+theorem dead_conn_never_orphans (fx : Fix) (s : St) (u k c : Nat) (hp : s.panicked = false)
+    (hu : s.u.get u = some (.holding k c)) :
+    (∃ s1 r, step fx s (.startMsg u false) = some (s1, r) ∧ s1.w.get c = some .closed ∧
+       ((r = .retry ∧ s1.u.get u = some (.accepted (k + 1)) ∧ k + 1 < tries s.pc) ∨
+        (r = .exhausted ∧ s1.u.get u = some .closed))) ∧
+    (∃ s1, step fx s (.startMsg u true) = some (s1, .bridged c) ∧ s1.u.get u = some (.bridged c) ∧
+       ∃ s2, step fx s1 (.joinEnd u) = some (s2, .closed) ∧ s2.u.get u = some .closed ∧
+             s2.w.get c = some .closed) := by
+  constructor
+  · by_cases hk : k + 1 < tries s.pc
+    · have e : step fx s (.startMsg u false) =
+          some ({ s with w := s.w.set c .closed, u := s.u.set u (.accepted (k + 1)) }, .retry) := by
+        simp [step, hp, hu, hk]
+      exact ⟨_, _, e, by simp [Tbl.get_set], Or.inl ⟨rfl, by simp [Tbl.get_set], hk⟩⟩
+    · have e : step fx s (.startMsg u false) =
+          some ({ s with w := s.w.set c .closed, u := s.u.set u .closed }, .exhausted) := by
+        simp [step, hp, hu, hk]
+      exact ⟨_, _, e, by simp [Tbl.get_set], Or.inr ⟨rfl, by simp [Tbl.get_set]⟩⟩
+  · have e1 : step fx s (.startMsg u true) = some ({ s with u := s.u.set u (.bridged c) }, .bridged c) := by
+      simp [step, hp, hu]
+    refine ⟨_, e1, by simp [Tbl.get_set], ?_⟩
+    have e2 : step fx { s with u := s.u.set u (.bridged c) } (.joinEnd u) =
+        some ({ s with u := (s.u.set u (.bridged c)).set u .closed, w := s.w.set c .closed }, .closed) := by
+      simp [step, hp, Tbl.get_set]
+    exact ⟨_, e2, by simp [Tbl.get_set], by simp [Tbl.get_set]⟩
+
+/-- whichever way the write went, the dead connection is consumed by this one handler only: once the
+    handler has let go of it, it is closed and nobody can ever be bridged to it again -/
+theorem closed_conn_never_bridged {fx : Fix} {pc : Int} {T : Nat} {s : St} (h : Reach fx pc T s) (c : Nat)
+    (hc : s.w.get c = some .closed) (u : Nat) : s.u.get u ≠ some (.bridged c) ∧ ∀ k, s.u.get u ≠ some (.holding k c) := by
+  have inv := inv_reach h
+  constructor
+  · intro hb; have := (inv.taken_iff c u).2 (Or.inr hb); rw [hc] at this; cases this
+  · intro k hk; have := (inv.taken_iff c u).2 (Or.inl ⟨k, hk⟩); rw [hc] at this; cases this
+
+/-! ## 2c. the advance requests over the whole history of a session -/
+
+/-- However many proxies the session registers, closes and registers again, however many user and work
+    connections come and go: the requests sent in advance (on behalf of no user connection) are the
+    `advance` of `Start()`, i.e. exactly max 0 (min client server) -/
+theorem advance_history {fx : Fix} {client serverMax : Int} {T : Nat} {s : St}
+    (h : Reach fx (clampPoolCount true (newPoolCount client serverMax)) T s) :
+    s.adv = advanceSpec client serverMax := by
+  have := (acct_reach h).adv_eq
+  rw [(reach_params h).1, clamp_advance] at this; exact this
+
+theorem advance_history_le {fx : Fix} {pc : Int} {T : Nat} {s : St} (h : Reach fx pc T s) :
+    s.adv = advance pc := by
+  have := (acct_reach h).adv_eq
+  rw [(reach_params h).1] at this; exact this
+
+/-- every ReqWorkConn ever sent is one of the advance ones or was sent by GetWorkConn for a user connection -/
+theorem reqs_accounted {fx : Fix} {pc : Int} {T : Nat} {s : St} (h : Reach fx pc T s) :
+    s.reqs = advance pc + s.ureq := by
+  have a := acct_reach h
+  rw [a.reqs_eq, a.adv_eq, (reach_params h).1]
+
+/-- registering or closing a proxy asks the client for nothing and touches neither pool nor handlers -/
+theorem proxy_ops_request_nothing (fx : Fix) (s s' : St) (p : Nat) (r : Res)
+    (hs : step fx s (.regProxy p) = some (s', r) ∨ step fx s (.closeProxy p) = some (s', r)) :
+    s'.reqs = s.reqs ∧ s'.adv = s.adv ∧ s'.pool = s.pool ∧ s'.u = s.u ∧ s'.w = s.w := by
+  rcases hs with hs | hs <;> simp only [step] at hs <;>
+    (repeat' (split at hs)) <;> first | (cases hs; exact ⟨rfl, rfl, rfl, rfl, rfl⟩) | cases hs
+
+/-- the executable form used by the driver: with `ureq` user-driven requests so far, a session may have
+    been sent at most `advanceSpec + ureq` ReqWorkConn -/
+def reqsOk (client serverMax : Int) (ureq : Nat) (impl : String) : Bool :=
+  match ((impl.splitOn ":").getLast?.getD "").toNat? with
+  | some n => decide (n ≤ advanceSpec client serverMax + ureq)
+  | none => false
+
 /-! ## 3. `limbo`: a work connection that is neither pooled nor closed (§7/11) -/
 
 /-- no work connection is ever left open outside the pool and outside a handler -/
@@ -352,11 +446,11 @@ def NoCrashFull (fx : Fix) : Prop :=
     Reach fx (clampPoolCount fx.clampPoolCount (newPoolCount client serverMax)) T s → s.panicked = false
 
 /-- Login.PoolCount = -1, one user connection: `defer workConn.Close()` on a nil interface -/
-theorem crash_witness : (run pinned (init (-1) 1) [.accept 0]).map (·.panicked) = some true := by decide
+theorem crash_witness : (run pinned (init (-1) 1) [.regProxy 0, .accept 0]).map (·.panicked) = some true := by decide
 
 theorem noCrashFull_pinned_false : ¬ NoCrashFull pinned := by
   intro h
-  cases hr : run pinned (init (-1) 1) [.accept 0] with
+  cases hr : run pinned (init (-1) 1) [.regProxy 0, .accept 0] with
   | none => have := crash_witness; rw [hr] at this; cases this
   | some s =>
     have hw := crash_witness
@@ -494,16 +588,413 @@ theorem handoff_outcome (fx : Fix) (s : Handoff.St) (c l : Nat) (hc : s.c.get c 
   · exact ⟨{ s with c := s.c.set c (if fx.closeOnFailedHandoff then .closed else .limbo) },
       by simp [Handoff.step, hc, hl], Or.inr ⟨by simp [Tbl.get_set], hl⟩⟩
 
+/-! ## 6. visitor-listener accept path (InternalListener; stcp / sudp / xtcp proxies) -/
+
+namespace VL
+
+structure Inv (s : VListen.St) : Prop where
+  nodup : s.q.Nodup
+  queued_iff : ∀ c, c ∈ s.q ↔ s.c.get c = some VListen.V.queued
+  le_cap : s.q.length ≤ s.cap
+  exit_empty : s.loopExit = true → s.q = [] ∧ s.chClosed = true
+  unreg_closed : s.registered = false → s.chClosed = true
+
+theorem inv_init (cap : Nat) : Inv { cap := cap } := by
+  constructor <;> simp [Tbl.get]
+
+theorem inv_setClosed {s : VListen.St} (h : Inv s) (c : Nat) (hn : s.c.get c = none) :
+    Inv { s with c := s.c.set c VListen.V.closed } := by
+  refine ⟨h.nodup, ?_, h.le_cap, h.exit_empty, h.unreg_closed⟩
+  intro c'
+  show c' ∈ s.q ↔ (s.c.set c VListen.V.closed).get c' = some VListen.V.queued
+  rw [Tbl.get_set]
+  by_cases hc : c' = c
+  · subst hc
+    simp only [if_true, Option.some.injEq]
+    constructor
+    · intro hm; have := (h.queued_iff c').1 hm; rw [hn] at this; cases this
+    · intro e; cases e
+  · simp only [hc, if_false]; exact h.queued_iff c'
+
+theorem inv_step {s s' : VListen.St} {l : VListen.Label} {r : VListen.Res} (h : Inv s) (hs : VListen.step s l = some (s', r)) : Inv s' := by
+  cases l with
+  | put c =>
+    simp only [VListen.step] at hs
+    split at hs
+    · cases hs
+    · rename_i hc
+      have hn : s.c.get c = none := by
+        cases hg : s.c.get c with
+        | none => rfl
+        | some v => exact absurd (by simp [hg]) hc
+      split at hs
+      · cases hs; exact inv_setClosed h c hn
+      · split at hs
+        · cases hs; exact inv_setClosed h c hn
+        · rename_i hreg hcl
+          split at hs
+          · rename_i hlen
+            cases hs
+            have hcn : c ∉ s.q := by
+              intro hm; have := (h.queued_iff c).1 hm; rw [hn] at this; cases this
+            refine ⟨?_, ?_, ?_, ?_, h.unreg_closed⟩
+            · show (s.q ++ [c]).Nodup
+              rw [List.nodup_append]
+              refine ⟨h.nodup, by simp, ?_⟩
+              intro a ha b hb
+              simp at hb; subst hb
+              intro e; subst e; exact hcn ha
+            · intro c'
+              show c' ∈ s.q ++ [c] ↔ (s.c.set c VListen.V.queued).get c' = some VListen.V.queued
+              rw [Tbl.get_set]
+              by_cases hc' : c' = c
+              · subst hc'; simp
+              · simp only [hc', if_false, List.mem_append, List.mem_singleton, or_false]; exact h.queued_iff c'
+            · show (s.q ++ [c]).length ≤ s.cap
+              simp; omega
+            · intro he
+              have := (h.exit_empty he).2
+              exact absurd this hcl
+          · cases hs; exact inv_setClosed h c hn
+  | accept =>
+    simp only [VListen.step] at hs
+    split at hs
+    · cases hs
+    · rename_i hle
+      split at hs
+      · rename_i c rest hq
+        cases hs
+        have hnd := h.nodup
+        rw [hq] at hnd
+        have hcn : c ∉ rest := (List.nodup_cons.1 hnd).1
+        refine ⟨(List.nodup_cons.1 hnd).2, ?_, ?_, ?_, h.unreg_closed⟩
+        · intro c'
+          show c' ∈ rest ↔ (s.c.set c VListen.V.accepted).get c' = some VListen.V.queued
+          rw [Tbl.get_set]
+          by_cases hc' : c' = c
+          · subst hc'; simp [hcn]
+          · simp only [hc', if_false]
+            rw [← h.queued_iff c', hq]; simp [hc']
+        · have := h.le_cap; rw [hq] at this; simp at this; show rest.length ≤ s.cap; omega
+        · intro he; exact absurd he hle
+      · rename_i hq
+        split at hs
+        · rename_i hcl
+          cases hs
+          exact ⟨h.nodup, h.queued_iff, h.le_cap, fun _ => ⟨hq, hcl⟩, h.unreg_closed⟩
+        · cases hs
+  | closeL =>
+    simp only [VListen.step] at hs
+    cases hs
+    exact ⟨h.nodup, h.queued_iff, h.le_cap, fun he => ⟨(h.exit_empty he).1, rfl⟩, fun _ => rfl⟩
+  | unregister =>
+    simp only [VListen.step] at hs
+    split at hs
+    · rename_i hc
+      cases hs
+      exact ⟨h.nodup, h.queued_iff, h.le_cap, h.exit_empty, fun _ => hc.1⟩
+    · cases hs
+
+theorem inv_reach {cap : Nat} {s : VListen.St} (h : VListen.Reach cap s) : Inv s := by
+  induction h with
+  | init => exact inv_init cap
+  | step _ hs ih => exact inv_step ih hs
+
+end VL
+
+/-- NEVER ORPHANED on the visitor-listener path, for all interleavings of put / accept / close /
+    unregister: once the accept goroutine has returned, no connection that was ever put is still
+    queued — each one was returned by Accept (and is owned by a handler) or has been closed -/
+theorem visitor_none_stranded {cap : Nat} {s : VListen.St} (h : VListen.Reach cap s) (he : s.loopExit = true) (c : Nat) :
+    s.c.get c = some VListen.V.accepted ∨ s.c.get c = some VListen.V.closed ∨ s.c.get c = none := by
+  have inv := VL.inv_reach h
+  cases hg : s.c.get c with
+  | none => exact Or.inr (Or.inr rfl)
+  | some v =>
+    cases v with
+    | accepted => exact Or.inl rfl
+    | closed => exact Or.inr (Or.inl rfl)
+    | queued =>
+      have := (inv.queued_iff c).2 hg
+      rw [(inv.exit_empty he).1] at this; cases this
+
+/-- the queue and the per-connection states agree, without duplicates, within the capacity -/
+theorem visitor_queue_sound {cap : Nat} {s : VListen.St} (h : VListen.Reach cap s) :
+    s.q.Nodup ∧ s.q.length ≤ s.cap ∧ ∀ c, c ∈ s.q ↔ s.c.get c = some VListen.V.queued :=
+  ⟨(VL.inv_reach h).nodup, (VL.inv_reach h).le_cap, (VL.inv_reach h).queued_iff⟩
+
+/-- a connection handed to NewConn is queued (only while the listener is open, registered and below
+    capacity) or closed on the spot; PutConn never loses one -/
+theorem visitor_put_outcome (s : VListen.St) (c : Nat) (hn : s.c.get c = none) :
+    ∃ s' r, VListen.step s (VListen.Label.put c) = some (s', r) ∧
+      ((r = VListen.Res.queued ∧ s'.c.get c = some VListen.V.queued ∧ s.chClosed = false ∧ s.registered = true ∧ s.q.length < s.cap) ∨
+       ((r = VListen.Res.err ∨ r = VListen.Res.full) ∧ s'.c.get c = some VListen.V.closed)) := by
+  by_cases hr : s.registered = false
+  · exact ⟨{ s with c := s.c.set c VListen.V.closed }, VListen.Res.err, by simp [VListen.step, hn, hr], Or.inr ⟨Or.inl rfl, by simp [Tbl.get_set]⟩⟩
+  · by_cases hc : s.chClosed = true
+    · exact ⟨{ s with c := s.c.set c VListen.V.closed }, VListen.Res.err, by simp [VListen.step, hn, hr, hc], Or.inr ⟨Or.inl rfl, by simp [Tbl.get_set]⟩⟩
+    · by_cases hl : s.q.length < s.cap
+      · exact ⟨{ s with q := s.q ++ [c], c := s.c.set c VListen.V.queued }, VListen.Res.queued, by simp [VListen.step, hn, hr, hc, hl],
+          Or.inl ⟨rfl, by simp [Tbl.get_set], by simpa using hc, by simpa using hr, hl⟩⟩
+      · exact ⟨{ s with c := s.c.set c VListen.V.closed }, VListen.Res.full, by simp [VListen.step, hn, hr, hc, hl],
+          Or.inr ⟨Or.inr rfl, by simp [Tbl.get_set]⟩⟩
+
+/-- after Close the accept loop cannot block and cannot leave early: it returns every queued connection,
+    in order, and only then exits -/
+theorem visitor_drain_after_close (s : VListen.St) (hc : s.chClosed = true) (hl : s.loopExit = false) :
+    ∃ s', VListen.run s (List.replicate (s.q.length + 1) VListen.Label.accept) = some s' ∧ s'.loopExit = true ∧ s'.q = [] ∧
+      ∀ c, c ∈ s.q → s.q.Nodup → s'.c.get c = some VListen.V.accepted := by
+  generalize hq : s.q = q
+  induction q generalizing s with
+  | nil =>
+    refine ⟨{ s with loopExit := true }, ?_, rfl, hq, by intro c hm; cases hm⟩
+    simp [VListen.run, VListen.step, hl, hq, hc]
+  | cons a rest ih =>
+    let s1 : VListen.St := { s with q := rest, c := s.c.set a VListen.V.accepted }
+    have hs : VListen.step s VListen.Label.accept = some (s1, VListen.Res.got a) := by simp [VListen.step, hl, hq, s1]
+    obtain ⟨s', hr, he, hq', hall⟩ := ih s1 hc hl rfl
+    refine ⟨s', ?_, he, hq', ?_⟩
+    · show VListen.run s (VListen.Label.accept :: List.replicate (rest.length + 1) VListen.Label.accept) = some s'
+      simp only [VListen.run, hs]; exact hr
+    · intro c hm hnd
+      have hnd' := List.nodup_cons.1 hnd
+      by_cases hca : c = a
+      · subst hca
+        -- a is not in rest: the later accepts do not touch it
+        have keep : ∀ (t : VListen.St) (n : Nat) (t' : VListen.St), t.c.get c = some VListen.V.accepted → c ∉ t.q →
+            VListen.run t (List.replicate n VListen.Label.accept) = some t' → t'.c.get c = some VListen.V.accepted := by
+          intro t n
+          induction n generalizing t with
+          | zero => intro t' h1 _ h3; simp [VListen.run] at h3; subst h3; exact h1
+          | succ n ihn =>
+            intro t' h1 h2 h3
+            simp only [List.replicate_succ, VListen.run] at h3
+            split at h3
+            · cases h3
+            · rename_i t1 r1 hst
+              simp only [VListen.step] at hst
+              split at hst
+              · cases hst
+              · split at hst
+                · rename_i b rest' hqb
+                  cases hst
+                  have hcb : c ≠ b := by intro e; subst e; exact h2 (by rw [hqb]; simp)
+                  exact ihn _ t' (by simp [Tbl.get_set, hcb, h1]) (by intro hm'; exact h2 (by rw [hqb]; simp [hm'])) h3
+                · split at hst
+                  · cases hst; exact ihn { t with loopExit := true } t' h1 h2 h3
+                  · cases hst
+        exact keep s1 _ s' (by simp [s1, Tbl.get_set]) hnd'.1 hr
+      · have : c ∈ rest := by simpa [hca] using hm
+        exact hall c this hnd'.2
+
+/-! ## 7. group-listener accept path (TCPGroup / TCPMuxGroup hand-off) -/
+
+namespace GA
+
+structure Inv (s : GroupAccept.St) : Prop where
+  backlog_iff : ∀ c, s.c.get c = some GroupAccept.G.backlog → c ∈ s.backlog
+  held_iff : ∀ c, s.c.get c = some GroupAccept.G.held → s.hold = some c
+  idle : s.members = 0 → s.backlog = [] ∧ s.hold = none
+
+theorem inv_setOther {s : GroupAccept.St} (h : Inv s) (c : Nat) (v : GroupAccept.G)
+    (hv1 : v ≠ .backlog) (hv2 : v ≠ .held) (m : Nat) (hm : m = 0 → s.members = 0) :
+    Inv { s with members := m, c := s.c.set c v } := by
+  refine ⟨?_, ?_, fun e => h.idle (hm e)⟩
+  · intro c'
+    show (s.c.set c v).get c' = some GroupAccept.G.backlog → c' ∈ s.backlog
+    rw [Tbl.get_set]
+    by_cases hc : c' = c
+    · subst hc; simp only [if_true, Option.some.injEq]; intro e; exact absurd e hv1
+    · simp only [hc, if_false]; exact h.backlog_iff c'
+  · intro c'
+    show (s.c.set c v).get c' = some GroupAccept.G.held → s.hold = some c'
+    rw [Tbl.get_set]
+    by_cases hc : c' = c
+    · subst hc; simp only [if_true, Option.some.injEq]; intro e; exact absurd e hv2
+    · simp only [hc, if_false]; exact h.held_iff c'
+
+theorem inv_step {s s' : GroupAccept.St} {l : GroupAccept.Label} (h : Inv s)
+    (hs : GroupAccept.step s l = some s') : Inv s' := by
+  cases l with
+  | listen =>
+    simp only [GroupAccept.step] at hs
+    cases hs
+    exact ⟨h.backlog_iff, h.held_iff, fun e => by simp at e⟩
+  | conn c =>
+    simp only [GroupAccept.step] at hs
+    split at hs
+    · cases hs
+    · split at hs
+      · cases hs; exact inv_setOther h c .closed (by simp) (by simp) s.members (fun e => e)
+      · rename_i hm
+        cases hs
+        refine ⟨?_, ?_, fun e => absurd e hm⟩
+        · intro c'
+          show (s.c.set c .backlog).get c' = some GroupAccept.G.backlog → c' ∈ s.backlog ++ [c]
+          rw [Tbl.get_set]
+          by_cases hc : c' = c
+          · subst hc; simp
+          · simp only [hc, if_false]; intro e; simp [h.backlog_iff c' e]
+        · intro c'
+          show (s.c.set c .backlog).get c' = some GroupAccept.G.held → s.hold = some c'
+          rw [Tbl.get_set]
+          by_cases hc : c' = c
+          · subst hc; simp
+          · simp only [hc, if_false]; exact h.held_iff c'
+  | workerAccept =>
+    simp only [GroupAccept.step] at hs
+    split at hs
+    · rename_i c rest hh hb
+      split at hs
+      · cases hs
+      · rename_i hm
+        cases hs
+        refine ⟨?_, ?_, fun e => absurd e hm⟩
+        · intro c'
+          show (s.c.set c .held).get c' = some GroupAccept.G.backlog → c' ∈ rest
+          rw [Tbl.get_set]
+          by_cases hc : c' = c
+          · subst hc; simp
+          · simp only [hc, if_false]; intro e
+            have := h.backlog_iff c' e
+            rw [hb] at this; simpa [hc] using this
+        · intro c'
+          show (s.c.set c .held).get c' = some GroupAccept.G.held → some c = some c'
+          rw [Tbl.get_set]
+          by_cases hc : c' = c
+          · subst hc; simp
+          · simp only [hc, if_false]; intro e
+            have := h.held_iff c' e
+            rw [hh] at this; cases this
+    · cases hs
+  | recv =>
+    simp only [GroupAccept.step] at hs
+    split at hs
+    · rename_i c hh
+      split at hs
+      · cases hs
+      · rename_i hm
+        cases hs
+        refine ⟨?_, ?_, fun e => absurd e hm⟩
+        · intro c'
+          show (s.c.set c .delivered).get c' = some GroupAccept.G.backlog → c' ∈ s.backlog
+          rw [Tbl.get_set]
+          by_cases hc : c' = c
+          · subst hc; simp
+          · simp only [hc, if_false]; exact h.backlog_iff c'
+        · intro c'
+          show (s.c.set c .delivered).get c' = some GroupAccept.G.held → none = some c'
+          rw [Tbl.get_set]
+          by_cases hc : c' = c
+          · subst hc; simp
+          · simp only [hc, if_false]; intro e
+            have := h.held_iff c' e
+            rw [hh] at this; simp at this; exact absurd this.symm hc
+    · cases hs
+  | leave =>
+    simp only [GroupAccept.step] at hs
+    split at hs
+    · cases hs
+    · split at hs
+      · cases hs
+        refine ⟨?_, ?_, fun _ => ⟨rfl, rfl⟩⟩
+        · intro c'
+          show (s.backlog.foldl (fun (t : Tbl GroupAccept.G) c => t.set c GroupAccept.G.closed) _).get c' = some GroupAccept.G.backlog → c' ∈ []
+          rw [foldl_set_get]
+          by_cases hm : c' ∈ s.backlog
+          · simp [hm]
+          · simp only [hm, if_false]
+            intro e
+            have : s.c.get c' = some GroupAccept.G.backlog := by
+              cases hh : s.hold with
+              | none => simpa [hh] using e
+              | some c0 =>
+                simp only [hh] at e
+                rw [Tbl.get_set] at e
+                by_cases hc : c' = c0
+                · simp [hc] at e
+                · simpa [hc] using e
+            exact absurd (h.backlog_iff c' this) hm
+        · intro c'
+          show (s.backlog.foldl (fun (t : Tbl GroupAccept.G) c => t.set c GroupAccept.G.closed) _).get c' = some GroupAccept.G.held → none = some c'
+          rw [foldl_set_get]
+          by_cases hm : c' ∈ s.backlog
+          · simp [hm]
+          · simp only [hm, if_false]
+            intro e
+            exfalso
+            cases hh : s.hold with
+            | none =>
+              simp only [hh] at e
+              have := h.held_iff c' e
+              rw [hh] at this; cases this
+            | some c0 =>
+              simp only [hh] at e
+              rw [Tbl.get_set] at e
+              by_cases hc : c' = c0
+              · simp [hc] at e
+              · simp only [hc, if_false] at e
+                have := h.held_iff c' e
+                rw [hh] at this; simp at this; exact hc this.symm
+      · rename_i h0 h1
+        cases hs
+        exact ⟨h.backlog_iff, h.held_iff, fun e => by simp at e; omega⟩
+
+theorem inv_reach {s : GroupAccept.St} (h : GroupAccept.Reach s) : Inv s := by
+  induction h with
+  | init => exact ⟨by intro c e; simp [Tbl.get] at e, by intro c e; simp [Tbl.get] at e, fun _ => ⟨rfl, rfl⟩⟩
+  | step _ hs ih => exact inv_step ih hs
+
+end GA
+
+/-- NEVER ORPHANED on the group-listener path, for all interleavings of joins, user connections, worker
+    and member accepts and leaves: when no member is left, every connection that ever reached the group's
+    port was delivered to a member (its handler owns it) or has been closed — none sits in a channel or
+    in the worker's hands -/
+theorem group_none_stranded {s : GroupAccept.St} (h : GroupAccept.Reach s) (hm : s.members = 0) (c : Nat) :
+    s.c.get c = some .delivered ∨ s.c.get c = some .closed ∨ s.c.get c = none := by
+  have inv := GA.inv_reach h
+  cases hg : s.c.get c with
+  | none => exact Or.inr (Or.inr rfl)
+  | some v =>
+    cases v with
+    | delivered => exact Or.inl rfl
+    | closed => exact Or.inr (Or.inl rfl)
+    | backlog => have := inv.backlog_iff c hg; rw [(inv.idle hm).1] at this; cases this
+    | held => have := inv.held_iff c hg; rw [(inv.idle hm).2] at this; cases this
+
+/-- the unbuffered hand-off holds at most one connection outside the kernel queue at any time -/
+theorem group_worker_holds_one {s : GroupAccept.St} (h : GroupAccept.Reach s) (c c' : Nat)
+    (h1 : s.c.get c = some .held) (h2 : s.c.get c' = some .held) : c = c' := by
+  have inv := GA.inv_reach h
+  have a := inv.held_iff c h1
+  have b := inv.held_iff c' h2
+  rw [a] at b; simpa using b
+
 /-! ## non-vacuity -/
+
+example : (GroupAccept.run {} [.listen, .conn 1, .conn 2, .conn 3, .workerAccept, .recv, .workerAccept, .leave]).map
+    (fun s => [s.c.get 1, s.c.get 2, s.c.get 3]) = some [some .delivered, some .closed, some .closed] := by decide
+
+
+def vlDemo : Option VListen.St :=
+  VListen.run {} [.put 1, .put 2, .accept, .put 3, .closeL, .put 4, .unregister, .put 5, .accept, .accept, .accept]
+example : vlDemo.map (·.loopExit) = some true := by decide
+example : vlDemo.map (fun s => [s.c.get 1, s.c.get 2, s.c.get 3]) = some [some .accepted, some .accepted, some .accepted] := by decide
+example : vlDemo.map (fun s => [s.c.get 4, s.c.get 5]) = some [some .closed, some .closed] := by decide
+example : VListen.run {} [.put 1, .closeL, .accept, .accept, .accept] = none := by decide
+example : (VListen.run { cap := 1 } [.put 1, .put 2]).map (fun s => [s.c.get 1, s.c.get 2]) =
+    some [some .queued, some .closed] := by decide
+
 
 /-- a reachable state with a full pool, a bridged pair, a waiting user and a refused surplus offer -/
 example : ∃ s, run pinned (init 0 1)
-    ([.dial 0, .lookup 0 true, .send 0, .accept 7, .take 7, .startMsg 7 true, .accept 8, .request 8 true, .tick] ) = some s ∧
+    ([.regProxy 0, .dial 0, .lookup 0 true, .send 0, .accept 7, .take 7, .startMsg 7 true, .accept 8, .request 8 true, .tick] ) = some s ∧
     s.u.get 7 = some (.bridged 0) ∧ s.u.get 8 = some (.waiting 0 1) ∧ s.w.get 0 = some (.taken 7) := by
   refine ⟨_, rfl, ?_, ?_, ?_⟩ <;> decide
 
-example : (run pinned (init 0 1) [.accept 8, .request 8 true, .tick, .tick]) = none := by decide
-example : (run pinned (init 0 1) [.accept 8, .request 8 true, .tick, .timeout 8]).map (fun s => s.u.get 8) = some (some .closed) := by decide
+example : (run pinned (init 0 1) [.regProxy 0, .accept 8, .request 8 true, .tick, .tick]) = none := by decide
+example : (run pinned (init 0 1) [.regProxy 0, .accept 8, .request 8 true, .tick, .timeout 8]).map (fun s => s.u.get 8) = some (some .closed) := by decide
 example : (run repaired (init 1 1) limboTrace).map (fun s => s.w.get 0) = some (some .closed) := by decide
 example : (Handoff.run repaired {} handoffLimboTrace).map (fun s => s.c.get 0) = some (some .closed) := by decide
 example : advance (newPoolCount 7 5) = 5 ∧ advance (newPoolCount (-3) 5) = 0 ∧ capOf (newPoolCount (-3) 5) = 7 := by decide
